@@ -7,10 +7,13 @@ package libp2p
 // leading zero bytes, and random keys; a sample goes through the real libp2p.New.
 
 import (
+	"bytes"
+	"context"
 	"crypto/ecdsa"
 	"encoding/hex"
 	"encoding/json"
 	"math/big"
+	"sync"
 	"testing"
 
 	"github.com/ethereum/go-ethereum/crypto"
@@ -18,8 +21,50 @@ import (
 	"github.com/libp2p/go-libp2p/core/peer"
 	mockkeysigner "github.com/primevprotocol/mev-commit/pkg/keysigner/mock"
 	"github.com/primevprotocol/mev-commit/pkg/p2p"
+	"github.com/primevprotocol/mev-commit/pkg/p2p/libp2p/internal/handshake"
+	"github.com/primevprotocol/mev-commit/pkg/signer"
 	"github.com/primevprotocol/mev-commit/pkg/util"
 )
+
+// the peers' side of the statement: a verifying node (real handshake service, real signer, real
+// GetEthAddressFromPeerID) runs its inbound handshake against an honest node started with the
+// key.  Returns the address it admitted the peer with ("" when it refused).
+func c18Admit(hs *handshake.Service, own *ecdsa.PrivateKey, priv *ecdsa.PrivateKey) string {
+	lk, err := libp2pcrypto.UnmarshalSecp256k1PrivateKey(util.PadKeyTo32Bytes(priv.D))
+	if err != nil {
+		return ""
+	}
+	pid, err := peer.IDFromPrivateKey(lk)
+	if err != nil {
+		return ""
+	}
+	sig, err := crypto.Sign(crypto.Keccak256([]byte("bidder"+"tok")), priv)
+	if err != nil {
+		return ""
+	}
+	hx := hex.EncodeToString
+	req := c04Frame{T: "req", Role: hx([]byte("bidder")), Token: hx([]byte("tok")), Sig: hx(sig)}
+	echo := c04Frame{T: "resp", Observed: hx(crypto.PubkeyToAddress(own.PublicKey).Bytes()), Role: hx([]byte("provider"))}
+	wire := append(c04FrameBytes(req), c04FrameBytes(echo)...)
+	ls := &c04Stream{rd: bytes.NewReader(wire), conn: &c04Conn{pid: pid}, writeFail: -1}
+	var p *p2p.Peer
+	func() {
+		defer func() { recover() }()
+		p, err = hs.Handle(context.Background(), newStream(ls, nil, nil), pid)
+	}()
+	if err != nil || p == nil {
+		return ""
+	}
+	return hx(p.EthAddress.Bytes())
+}
+
+func c18Key(d *big.Int) *ecdsa.PrivateKey {
+	priv := new(ecdsa.PrivateKey)
+	priv.D = d
+	priv.PublicKey.Curve = crypto.S256()
+	priv.PublicKey.X, priv.PublicKey.Y = crypto.S256().ScalarBaseMult(d.Bytes())
+	return priv
+}
 
 type c18In struct {
 	Tag          string `json:"tag"`
@@ -152,5 +197,68 @@ func TestVerifC18(t *testing.T) {
 		}
 		in := mk("random", d, false)
 		out.emit(in, c18Run(in))
+	}
+	// honest nodes handshaking with one verifying node: one after the other, a key and its
+	// negation (same X coordinate) in both orders, and many at the same instant
+	ownKey := c18Key(new(big.Int).SetBytes(append([]byte{1}, rng.bytes(31)...)))
+	hs, err := handshake.New(mockkeysigner.NewMockKeySigner(ownKey, crypto.PubkeyToAddress(ownKey.PublicKey)), p2p.PeerTypeProvider,
+		"token-local", signer.New(), &c04Reg{answer: true}, GetEthAddressFromPeerID)
+	if err != nil {
+		t.Fatal(err)
+	}
+	judge := func(tag string, d *big.Int, admitted string) {
+		in := mk(tag, d, false)
+		obs := c18Run(in)
+		if obs.Err == "" {
+			obs.AddrPeer = admitted
+			if admitted == "" {
+				obs.Err = "honest-peer-refused"
+			}
+		}
+		out.emit(in, obs)
+	}
+	var ds []*big.Int
+	for i := 0; i < vcount(12, 60); i++ {
+		d := new(big.Int).SetBytes(rng.bytes(32 - i%5))
+		if d.Sign() == 0 || d.Cmp(n) >= 0 {
+			continue
+		}
+		ds = append(ds, d, new(big.Int).Sub(n, d))
+	}
+	for _, d := range ds {
+		judge("honest-handshake", d, c18Admit(hs, ownKey, c18Key(d)))
+	}
+	keys := make([]*ecdsa.PrivateKey, len(ds))
+	for i, d := range ds {
+		keys[i] = c18Key(d)
+	}
+	want := make([]string, len(ds))
+	for i := range ds {
+		want[i] = hex.EncodeToString(crypto.PubkeyToAddress(keys[i].PublicKey).Bytes())
+	}
+	bad := make([]int, len(ds))
+	var mu sync.Mutex
+	var wg sync.WaitGroup
+	for g := 0; g < 8; g++ {
+		wg.Add(1)
+		go func(g int) {
+			defer wg.Done()
+			for r := 0; r < vcount(150, 1500); r++ {
+				i := (g*7 + r) % len(keys)
+				if c18Admit(hs, ownKey, keys[i]) != want[i] {
+					mu.Lock()
+					bad[i]++
+					mu.Unlock()
+				}
+			}
+		}(g)
+	}
+	wg.Wait()
+	for i, d := range ds {
+		a := want[i]
+		if bad[i] > 0 {
+			a = ""
+		}
+		judge("honest-handshake-concurrent", d, a)
 	}
 }
